@@ -98,6 +98,18 @@ func run(pass *analysis.Pass) (any, error) {
 						canSuggestFix = false
 					}
 				}
+				// v, ok := x.(T) cannot be rewritten to v, ok := x
+				if len(n.Lhs) == 2 && len(n.Rhs) == 1 {
+					if _, ok := ast.Unparen(n.Rhs[0]).(*ast.TypeAssertExpr); ok {
+						canSuggestFix = false
+					}
+				}
+			case *ast.ValueSpec:
+				if len(n.Names) == 2 && len(n.Values) == 1 {
+					if _, ok := ast.Unparen(n.Values[0]).(*ast.TypeAssertExpr); ok {
+						canSuggestFix = false
+					}
+				}
 			case *ast.UnaryExpr:
 				if id, ok := n.X.(*ast.Ident); ok && n.Op == token.AND && pass.TypesInfo.ObjectOf(id) == x {
 					canSuggestFix = false
